@@ -301,12 +301,16 @@ def _one_fault(inj, sig, cond_texts, system, pm, weakly, queries, budgets, kind,
 
 
 def _sample_ks(n, cap, rng):
+    """all k in 1..n, or (quick tier) the first 8, the last 2 and a seeded sample of the rest"""
     if cap is None or n <= cap:
         return list(range(1, n + 1))
-    head = list(range(1, 9))
-    tail = [n - 1, n]
-    rest = [k for k in range(9, n - 1)]
-    return sorted(set(head + tail + rng.sample(rest, cap - len(head) - len(tail))))
+    if cap < 8:
+        return sorted({1 + round(i * (n - 1) / max(1, cap - 1)) for i in range(cap)})
+    head = list(range(1, min(8, cap // 2) + 1))
+    tail = [n - 1, n][-max(1, min(2, cap // 4)) :]
+    rest = [k for k in range(head[-1] + 1, tail[0])]
+    more = max(0, min(len(rest), cap - len(head) - len(tail)))
+    return sorted(set(head + tail + rng.sample(rest, more)))
 
 
 def _base_id(sig, cond_texts):
@@ -418,7 +422,7 @@ def run(tier, seed):
     rng = random.Random(seed)
     thorough = tier == "thorough"
     n_bases = 60 if thorough else 10
-    per_cfg = 3 if thorough else 1  # budget settings per (S3 base, operator, mode), rotating over all settings
+    per_cfg = 6 if thorough else 1  # budget settings per (S3 base, operator, mode), rotating over all settings
     cap = None if thorough else 25
     names = list(BUDGETS)
     units = []
